@@ -31,7 +31,7 @@ def run(ctx):
     th.start()
     conf = {'cases': 14, 'max_per_field': 8} if ctx.quick else {'cases': 10 ** 6, 'max_per_field': 14}
     specs = sh.trace_specs(ctx, 'c07', 1 if ctx.quick else 2)
-    res = sh.generate(specs, conf)
+    res = sh.generate(specs, conf, nproc=6 if ctx.quick else 14)
     val = sh.validate_all(ctx, res)
     th.join()
     if err:
